@@ -286,23 +286,9 @@ func retIsErr(b *ssa.BasicBlock, ei int) bool {
 // stateOnPath classifies the fields of the returned state from the stores
 // executed on the path (last store wins).
 func (r *Run) stateOnPath(ff *core.FnFacts, path []*ssa.BasicBlock, state ssa.Value, role opRole) effectRow {
-	last := map[string]ssa.Value{}
-	for _, b := range path {
-		for _, ins := range b.Instrs {
-			st, ok := ins.(*ssa.Store)
-			if !ok {
-				continue
-			}
-			fa, ok := st.Addr.(*ssa.FieldAddr)
-			if !ok || fa.X != state {
-				continue
-			}
-			last[fieldName(fa)] = st.Val
-		}
-	}
+	last := r.effectiveFields(ff, state, path)
 	row := effectRow{Doc: "unset", UC: "none", RC: "none"}
-	if v, ok := last["Doc"]; ok {
-		t := ff.TB.Of(v)
+	if t, ok := last["Doc"]; ok {
 		s := t.String()
 		switch {
 		case s == "$rm.Doc":
@@ -324,11 +310,10 @@ func (r *Run) stateOnPath(ff *core.FnFacts, path []*ssa.BasicBlock, state ssa.Va
 		}
 	}
 	classify := func(field string) string {
-		v, ok := last[field]
+		t, ok := last[field]
 		if !ok {
 			return "none"
 		}
-		t := ff.TB.Of(v)
 		s := t.String()
 		switch {
 		case s == `""`:
@@ -346,8 +331,8 @@ func (r *Run) stateOnPath(ff *core.FnFacts, path []*ssa.BasicBlock, state ssa.Va
 	}
 	row.UC = classify("UpdateCommitment")
 	row.RC = classify("RecoveryCommitment")
-	if v, ok := last["Deactivated"]; ok {
-		row.Deact = ff.TB.Of(v).String() == "true"
+	if t, ok := last["Deactivated"]; ok {
+		row.Deact = t.String() == "true"
 	}
 	return row
 }
@@ -407,4 +392,70 @@ func (r *Run) classifyCheckDeep(f core.Fact, role opRole) string {
 		return c
 	}
 	return class
+}
+
+// literalFields: the values stored into the fields of a freshly allocated struct.
+func literalFields(al *ssa.Alloc) map[string]ssa.Value {
+	m := map[string]ssa.Value{}
+	if refs := al.Referrers(); refs != nil {
+		for _, rf := range *refs {
+			fa, ok := rf.(*ssa.FieldAddr)
+			if !ok {
+				continue
+			}
+			if frefs := fa.Referrers(); frefs != nil {
+				for _, fr := range *frefs {
+					if st, ok := fr.(*ssa.Store); ok && st.Addr == ssa.Value(fa) {
+						m[fieldName(fa)] = st.Val
+					}
+				}
+			}
+		}
+	}
+	return m
+}
+
+// effectiveFields: the field values of the state value at the end of the path. When the state comes from a helper of
+// the package that returns a fresh literal ("carry everything over, the caller overrides what changes"), the helper's
+// fields (actual arguments substituted) are the base; the stores on the path override them.
+func (r *Run) effectiveFields(ff *core.FnFacts, state ssa.Value, path []*ssa.BasicBlock) map[string]*core.Term {
+	last := map[string]*core.Term{}
+	if c, isCall := state.(*ssa.Call); isCall {
+		if g := c.Common().StaticCallee(); g != nil && g.Pkg == ff.Fn.Pkg && len(g.Blocks) > 0 && r.P.IsSubject(g) {
+			gf := r.E.Facts(g, core.Ctx{})
+			var actual []*core.Term
+			for _, a := range core.CallArgs(c.Common()) {
+				actual = append(actual, ff.TB.Of(a))
+			}
+			nret := 0
+			for _, gb := range g.Blocks {
+				ret, ok := gb.Instrs[len(gb.Instrs)-1].(*ssa.Return)
+				if !ok || len(ret.Results) == 0 {
+					continue
+				}
+				nret++
+				if al, isAl := core.RetOp(ret, 0).(*ssa.Alloc); isAl && nret == 1 {
+					for fld, v := range literalFields(al) {
+						last[fld] = gf.TB.Of(v).Subst(actual)
+					}
+				} else {
+					last = map[string]*core.Term{} // several returns or not a literal: no base
+				}
+			}
+		}
+	}
+	for _, b := range path {
+		for _, ins := range b.Instrs {
+			st, ok := ins.(*ssa.Store)
+			if !ok {
+				continue
+			}
+			fa, ok := st.Addr.(*ssa.FieldAddr)
+			if !ok || fa.X != state {
+				continue
+			}
+			last[fieldName(fa)] = ff.TB.Of(st.Val)
+		}
+	}
+	return last
 }
